@@ -25,6 +25,8 @@ from fractions import Fraction
 import numpy as np
 
 ID = "C10"
+# computational entry points whose results are watched by the engine's retained-result oracle (mc/explore.py)
+RETAIN = [('hydrodiy.stat.metrics', 'pit'), ('hydrodiy.stat.metrics', 'anderson_darling_test'), ('hydrodiy.stat.metrics', 'dscore'), ('hydrodiy.stat.metrics', 'cramer_von_mises_test'), ('hydrodiy.stat.metrics', 'alpha')]
 RULE = ("rank: every n x m forecast matrix over a small letter set (exact ties or gaps >> 1e-6) run through "
         "c_hydrodiy_stat.ensrank and compared with the Weigel-Mason pairwise mid-rank F and ranks in Fractions, "
         "and for every observation vector over {0,1,2} metrics.dscore checked for range, D=1/0 on perfectly / "
